@@ -816,6 +816,33 @@ func (c *Ctx) mergeModel(rule string, f *ssa.Function) *mergeSummary {
 			pub["list"] = x.Cell(st.Val) == outer
 		case "SortRulesIndexMap":
 			pub["index"] = x.Cell(st.Val) == idxCell
+			if !pub["index"] {
+				// or an index built afresh from the very list that is published: a new map
+				// filled, for every position of that list, with name -> position
+				idxVal := x.Origin(st.Val)
+				sameMap := func(m ssa.Value) bool {
+					if x.Origin(m) == idxVal {
+						return true
+					}
+					c1, c2 := x.Cell(m), x.Cell(st.Val)
+					return c1 != nil && c1 == c2
+				}
+				eachInstr(f, func(i2 ssa.Instruction) {
+					mu, isMu := i2.(*ssa.MapUpdate)
+					if !isMu || !sameMap(mu.Map) {
+						return
+					}
+					b, isN := x.isFieldLoad(mu.Key, "RuleEntity", "RuleName")
+					if !isN {
+						return
+					}
+					if s2, _, isR := x.rangedSlice(b); isR && x.Cell(s2) == outer && len(x.GuardsOfInLoop(mu.Block())) == 0 && x.readsRangeIndex(mu.Value) != nil {
+						if _, isMk := x.Origin(mu.Map).(*ssa.MakeMap); isMk || x.Cell(mu.Map) != nil {
+							pub["index"] = true
+						}
+					}
+				})
+			}
 		}
 	})
 	sum.add("published map=%v list=%v index=%v", pub["map"], pub["list"], pub["index"])
@@ -900,8 +927,9 @@ func (c *Ctx) ruleFullBuildAndRemoval(rule string) {
 	if f := c.MustFn(rule, "builder", "RuleBuilder", "BuildRuleFromString"); f != nil {
 		x := c.Index(f)
 		recv := ssa.Value(f.Params[0])
-		// list every parsed rule once: range over kc.RuleEntities, unconditional append to kc.SortRules
-		okList := false
+		// the list: built directly in the SortRules field of the fresh container, or in a local
+		// slice that is stored into that field afterwards
+		var listCell *ssa.Alloc // nil: the field itself
 		eachInstr(f, func(in ssa.Instruction) {
 			st, ok := in.(*ssa.Store)
 			if !ok {
@@ -911,11 +939,39 @@ func (c *Ctx) ruleFullBuildAndRemoval(rule string) {
 			if !ok || fieldOf(fa).Name() != "SortRules" || !x.freshKc(fa.X) {
 				return
 			}
-			args, ok := builtinCall(st.Val, "append")
+			if _, isApp := builtinCall(st.Val, "append"); isApp {
+				return
+			}
+			if cell := x.Cell(st.Val); cell != nil && cell.Parent() == f {
+				listCell = cell
+			}
+		})
+		isList := func(v ssa.Value) bool {
+			if listCell != nil {
+				return x.Cell(v) == listCell
+			}
+			_, is := x.isFieldLoad(v, "KnowledgeContext", "SortRules")
+			return is
+		}
+		// list every parsed rule once: range over kc.RuleEntities, unconditional append to the list
+		okList := false
+		eachInstr(f, func(in ssa.Instruction) {
+			st, ok := in.(*ssa.Store)
 			if !ok {
 				return
 			}
-			if _, is := x.isFieldLoad(args[0], "KnowledgeContext", "SortRules"); !is {
+			if listCell != nil {
+				if cell, _ := x.ResolveAddr(st.Addr).(*ssa.Alloc); cell != listCell {
+					return
+				}
+			} else {
+				fa, ok := st.Addr.(*ssa.FieldAddr)
+				if !ok || fieldOf(fa).Name() != "SortRules" || !x.freshKc(fa.X) {
+					return
+				}
+			}
+			args, ok := builtinCall(st.Val, "append")
+			if !ok || !isList(args[0]) {
 				return
 			}
 			el := x.appendedSingle(args[1])
@@ -942,13 +998,13 @@ func (c *Ctx) ruleFullBuildAndRemoval(rule string) {
 		okSort, okIdx := false, false
 		eachInstr(f, func(in ssa.Instruction) {
 			if call, ok := in.(*ssa.Call); ok && call.Call.StaticCallee() != nil && call.Call.StaticCallee().Pkg != nil && call.Call.StaticCallee().Pkg.Pkg.Path() == "sort" {
-				if _, is := x.isFieldLoad(x.Unwrap(call.Call.Args[0]), "KnowledgeContext", "SortRules"); is {
+				if isList(x.Unwrap(call.Call.Args[0])) {
 					// guarded only by len > 1
 					okG := true
 					for _, g := range x.GuardsOf(call.Block()) {
 						// a length test on the list may only exclude lengths below two
 						if arg, tlo, thi, flo, fhi, isLT := x.lenTest(g.Cond); isLT {
-							if _, isS := x.isFieldLoad(arg, "KnowledgeContext", "SortRules"); isS {
+							if isList(arg) {
 								lo, hi := tlo, thi
 								if !g.Pol {
 									lo, hi = flo, fhi
@@ -963,10 +1019,34 @@ func (c *Ctx) ruleFullBuildAndRemoval(rule string) {
 				}
 			}
 			if mu, ok := in.(*ssa.MapUpdate); ok {
+				// the index: the SortRulesIndexMap field of the fresh container, or a local map stored into it
+				isIdx := false
 				if _, is := x.isFieldLoad(mu.Map, "KnowledgeContext", "SortRulesIndexMap"); is {
+					isIdx = true
+				} else if mc := x.Cell(mu.Map); mc != nil {
+					for _, st := range x.stores[mc] {
+						_ = st
+					}
+					eachInstr(f, func(i2 ssa.Instruction) {
+						if st, isSt := i2.(*ssa.Store); isSt {
+							if fa, isFA := st.Addr.(*ssa.FieldAddr); isFA && fieldOf(fa).Name() == "SortRulesIndexMap" && x.freshKc(fa.X) && x.Cell(st.Val) == mc {
+								isIdx = true
+							}
+						}
+					})
+				} else if mk, isMk := x.Origin(mu.Map).(*ssa.MakeMap); isMk {
+					eachInstr(f, func(i2 ssa.Instruction) {
+						if st, isSt := i2.(*ssa.Store); isSt {
+							if fa, isFA := st.Addr.(*ssa.FieldAddr); isFA && fieldOf(fa).Name() == "SortRulesIndexMap" && x.freshKc(fa.X) && x.Origin(st.Val) == ssa.Value(mk) {
+								isIdx = true
+							}
+						}
+					})
+				}
+				if isIdx {
 					if b, isN := x.isFieldLoad(mu.Key, "RuleEntity", "RuleName"); isN {
-						if s, _, isR := x.rangedSlice(b); isR {
-							if _, isS := x.isFieldLoad(s, "KnowledgeContext", "SortRules"); isS && len(x.GuardsOfInLoop(mu.Block())) == 0 {
+						if s2, _, isR := x.rangedSlice(b); isR {
+							if isList(s2) && len(x.GuardsOfInLoop(mu.Block())) == 0 {
 								okIdx = true
 							}
 						}
